@@ -624,6 +624,15 @@ def _run(pid, P, tier, seed, scratch, t0):
                                      repo_file=h.get('repo_file'), repo_line=h.get('repo_line'), expr=''))
 
     rel_fail += bounded_fail
+    # a Kani fragment whose anchor was lost (the code around it changed shape) leaves its obligations undecided, like a function Verus
+    # cannot read: what backs them this run is the property's bounded stand-in(s), which ran above on the real code
+    standin_requests = sum((o.get('tried') or 0) for o in obligations if o.get('bounded') and o['id'].startswith('BOUNDED.'))
+    for i_ in inconclusive:
+        if i_.get('message', '').startswith('kani: lost-anchor') and not bounded_fail:
+            i_['undecided'] = True
+            i_['searched'] = standin_requests
+            i_['kind'] = 'kani-anchor'
+            i_['message'] = 'UNDECIDED (Kani fragment not found: %s)' % i_['message'][len('kani: lost-anchor: '):][:160]
 
     # vacuity: every probe must have failed
     vac_failed = set()
